@@ -39,9 +39,21 @@ struct xv_xr_s {
                          (xv_xr.rk_live ==> (xv_xr.regs > 0 && xv_rk >= 0 && xv_xr.rk_fd >= 0)) && (xv_xr.rf_live ==> (xv_xr.regs > 0 && xv_rf >= 0 && xv_xr.rf_id >= 0)))
 /* registration `id` is live, of descriptor `fd`, for `ev` -- as far as the tracked rows can tell (they can tell for every id/fd) */
 #define XR_IS(id, fd, ev) (((id) == xv_rk ==> (xv_xr.rk_live && xv_xr.rk_fd == (fd) && xv_xr.rk_event == (ev))) && \
-                           ((fd) == xv_rf ==> (xv_xr.rf_live && xv_xr.rf_id == (id) && xv_xr.rf_event == (ev))))
+                           ((fd) == xv_rf ==> (xv_xr.rf_live && xv_xr.rf_id == (id) && xv_xr.rf_event == (ev))) && \
+                           ((xv_xr.rf_live && xv_xr.rf_id == (id)) ==> xv_rf == (fd)) && ((xv_xr.rk_live && xv_xr.rk_fd == (fd)) ==> xv_rk == (id)))
 #define XR_ROWS_SAME (!xv_xr.rk_live == !__CPROVER_old(xv_xr.rk_live) && XV_SAME(xv_xr.rk_fd) && XV_SAME(xv_xr.rk_event) && \
                       !xv_xr.rf_live == !__CPROVER_old(xv_xr.rf_live) && XV_SAME(xv_xr.rf_id) && XV_SAME(xv_xr.rf_event))
+/* the effect of ONE xpoll_fd_reg_add(fd, ev) that returned id / of ONE xpoll_fd_reg_del(id) on the ghost table */
+#define XR_ADDED(id, fd, ev) (xv_xr.regs == __CPROVER_old(xv_xr.regs) + 1 && xv_xr.adds == __CPROVER_old(xv_xr.adds) + 1 && XV_SAME(xv_xr.dels) && XV_SAME(xv_xr.del_id) && \
+        xv_xr.add_id == (id) && xv_xr.add_fd == (fd) && xv_xr.add_event == (ev) && (id) >= 0 && (fd) >= 0 && \
+        ((id) == xv_rk ? (xv_xr.rk_live && xv_xr.rk_fd == (fd) && xv_xr.rk_event == (ev) && !__CPROVER_old(xv_xr.rk_live)) \
+                       : (!xv_xr.rk_live == !__CPROVER_old(xv_xr.rk_live) && XV_SAME(xv_xr.rk_fd) && XV_SAME(xv_xr.rk_event))) && \
+        ((fd) == xv_rf ? (xv_xr.rf_live && xv_xr.rf_id == (id) && xv_xr.rf_event == (ev) && !__CPROVER_old(xv_xr.rf_live)) \
+                       : (!xv_xr.rf_live == !__CPROVER_old(xv_xr.rf_live) && XV_SAME(xv_xr.rf_id) && XV_SAME(xv_xr.rf_event))))
+#define XR_DELETED(id) (xv_xr.regs == __CPROVER_old(xv_xr.regs) - 1 && xv_xr.dels == __CPROVER_old(xv_xr.dels) + 1 && xv_xr.del_id == (id) && XV_SAME(xv_xr.adds) && \
+        XV_SAME(xv_xr.add_id) && XV_SAME(xv_xr.add_fd) && XV_SAME(xv_xr.add_event) && XV_SAME(xv_xr.rk_fd) && XV_SAME(xv_xr.rk_event) && XV_SAME(xv_xr.rf_id) && XV_SAME(xv_xr.rf_event) && \
+        ((id) == xv_rk ? !xv_xr.rk_live : !xv_xr.rk_live == !__CPROVER_old(xv_xr.rk_live)) && \
+        ((__CPROVER_old(xv_xr.rf_live) && __CPROVER_old(xv_xr.rf_id) == (id)) ? !xv_xr.rf_live : !xv_xr.rf_live == !__CPROVER_old(xv_xr.rf_live)))
 /* no epoll change at all */
 #define XR_UNTOUCHED (XV_SAME(xv_xr.regs) && XV_SAME(xv_xr.adds) && XV_SAME(xv_xr.dels) && XV_SAME(xv_xr.add_fd) && XV_SAME(xv_xr.add_event) && \
                       XV_SAME(xv_xr.add_id) && XV_SAME(xv_xr.del_id) && XR_ROWS_SAME)
@@ -82,9 +94,14 @@ struct xv_tmg_s {
     int64_t sched_id; double sched_timeout; const void *sched_mgr;      /* last timer_mgr_schedule / _reschedule */
     _Bool expired_ret; int64_t expired_id;         /* last timer_mgr_has_expired */
     _Bool destroy_owner;                           /* owner flag of the last timer_mgr_destroy */
+    int mgr_fd, mgr_reg_id;                        /* the manager's timerfd and its xpoll registration */
+    int64_t last_id;                               /* the greatest timer id handed out so far (ids grow: part TM, timer_mgr_schedule.fresh_id) */
 } xv_tmg;
 #define xv_timers xv_tmg.timers
 #define xv_tmgrs xv_tmg.tmgrs
+
+/* ghost constants (never assigned): bound to entry values by requires clauses */
+int xv_g_nregs; const void *xv_g_ptr, *xv_g_ptr2;
 
 /* ---- c-ares model ------------------------------------------------------------------------------------------------------------ */
 struct xv_ar_s {
